@@ -64,12 +64,21 @@ pub fn parse_rootdefinition_enum(
                 ),
                 Some(last_value) => {
                     let next_value = match last_value.0 {
+                        // A bool can not hold the value after it so the next value continues as an int
+                        ir::Constant::Bool(v) => ir::Constant::Int32(v as i32 + 1),
                         ir::Constant::IntLiteral(v) => ir::Constant::IntLiteral(v + 1),
                         ir::Constant::Int32(v) => ir::Constant::Int32(v + 1),
                         ir::Constant::UInt32(v) => ir::Constant::UInt32(v + 1),
                         _ => panic!("Unexpected constant type in enum value"),
                     };
-                    (next_value, last_value.1)
+                    let next_ty = match last_value.0 {
+                        ir::Constant::Bool(_) => context
+                            .module
+                            .type_registry
+                            .register_type(ir::TypeLayer::Scalar(ir::ScalarType::Int32)),
+                        _ => last_value.1,
+                    };
+                    (next_value, next_ty)
                 }
             }
         };
